@@ -15,8 +15,8 @@
 (***************************************************************************)
 EXTENDS MultiPassGuards, Json, IOUtils
 
-VARIABLES l, st, viol, ntr, done
-tvars == <<l, st, viol, ntr, done>>
+VARIABLES l, st, viol, ntr, cnt, done
+tvars == <<l, st, viol, ntr, cnt, done>>
 
 Trace == ndJsonDeserialize(IOEnv.TRACE)
 Ev == Trace[l]
@@ -29,10 +29,11 @@ St0(cfg) == [cfg |-> cfg, nodes |-> <<>>, pending |-> <<>>, pools |-> <<>>, plac
              home |-> {}, optsOf |-> {}, passOf |-> {}, inPass |-> FALSE, sameHome |-> FALSE, homeStage |-> "-", nopen |-> 0, nguard |-> 0]
 Vs(guard, sigs) == [i \in DOMAIN sigs |-> V(guard, sigs[i])]
 
-TraceInit == l = 1 /\ st = St0(<<>>) /\ viol = <<>> /\ ntr = 0 /\ done = FALSE
+Cnt0 == [opens |-> 0, opensJudged |-> 0, commits |-> 0, passesRan |-> 0, idempotent |-> 0, creates |-> 0, totals |-> 0]
+TraceInit == l = 1 /\ st = St0(<<>>) /\ viol = <<>> /\ ntr = 0 /\ cnt = Cnt0 /\ done = FALSE
 
 cfg == st.cfg
-TCfg == Ev.e = "Cfg" /\ st' = St0(Ev) /\ ntr' = ntr + 1 /\ UNCHANGED viol
+TCfg == Ev.e = "Cfg" /\ st' = St0(Ev) /\ ntr' = ntr + 1 /\ UNCHANGED <<viol, cnt>>
 
 NodeByClaim(nodes, c) == CHOOSE i \in DOMAIN nodes : nodes[i].claim = c
 KnownClaim(nodes, c) == \E i \in DOMAIN nodes : nodes[i].claim = c
@@ -60,7 +61,7 @@ TPassBegin ==
                         !.inPass = TRUE, !.sameHome = SameHome(Ev.nodes, Ev.pending, st.home),
                         !.homeStage = IF SameHome(Ev.nodes, Ev.pending, st.home)
                                       THEN Stage(Ev.nodes[NodeByClaim(Ev.nodes, HomeOf(st.home, Ev.pending[1]))]) ELSE "-"]
-    /\ UNCHANGED <<viol, ntr>>
+    /\ UNCHANGED <<viol, ntr, cnt>>
 
 \* ---- scheduler decisions (hook H1)
 OpenIdx(opens, t) == CHOOSE j \in DOMAIN opens : opens[j].target = t
@@ -98,6 +99,9 @@ TSched ==
          [] Ev.kind = "open" -> Open
          [] Ev.kind = "final" -> CommitInflight
          [] OTHER -> UNCHANGED <<st, viol>>
+    /\ cnt' = [cnt EXCEPT !.opens = @ + (IF Ev.kind = "open" THEN 1 ELSE 0),
+                          !.opensJudged = @ + (IF Ev.kind = "open" /\ KnownPodMP(cfg, Ev.pod) /\ Exact(cfg, PodOf(cfg, Ev.pod)) THEN 1 ELSE 0),
+                          !.commits = @ + (IF Ev.kind = "commit" /\ Ev.tk = "existing" /\ KnownClaim(st.nodes, Ev.target) THEN 1 ELSE 0)]
     /\ UNCHANGED ntr
 
 \* ---- API: a NodeClaim stored by the provisioner
@@ -110,6 +114,7 @@ TApi ==
           THEN LET lim == st.pools[LimOf(st.pools, Ev.post.pool)].limits IN
                Vs("G_C03_CreateUnderLimit", SigsCapacity(cfg, st.nodes, Ev.post.pool, lim, st.passOf))
           ELSE <<>>)
+    /\ cnt' = [cnt EXCEPT !.creates = @ + (IF Ev.kind = "NodeClaim" /\ Ev.verb = "create" /\ Ev.actor = "provisioner" /\ Ev.err = "-" THEN 1 ELSE 0)]
     /\ UNCHANGED <<st, ntr>>
 
 TCreated ==
@@ -117,7 +122,7 @@ TCreated ==
     /\ st' = [st EXCEPT !.created = Append(@, Ev), !.home = SetHome(@, Range(Ev.pods), Ev.claim),
                         !.optsOf = {x \in @ : x.claim # Ev.claim} \cup {[claim |-> Ev.claim, opts |-> Ev.opts]},
                         !.passOf = @ \cup {[claim |-> Ev.claim, pass |-> Ev.pass]}]
-    /\ UNCHANGED <<viol, ntr>>
+    /\ UNCHANGED <<viol, ntr, cnt>>
 
 \* launch options of the NodeClaims of `pool` that have no instance yet (this pass's and, if the pass ran although it should not, older ones)
 OptsOf(optsOf, c) == (CHOOSE x \in optsOf : x.claim = c).opts
@@ -139,6 +144,7 @@ TPassEnd ==
                 ELSE Vs("G_C03_OpenWithinLimits", SigsWithin(cfg, st.nodes, pl.pool, pl.limits, PendingOpts(pl.pool)))])
          \o (IF Ev.ran /\ st.sameHome /\ G_C04_PassOnlyWhenSynced(st.nodes)
              THEN Chk(Ev.created = 0 /\ Ev.opens = 0, "Inv_C04_Idempotent", "home:" \o st.homeStage) ELSE <<>>)
+    /\ cnt' = [cnt EXCEPT !.passesRan = @ + (IF Ev.ran THEN 1 ELSE 0), !.idempotent = @ + (IF Ev.ran /\ st.sameHome THEN 1 ELSE 0)]
     /\ UNCHANGED ntr
 
 \* ---- pool totals after every step
@@ -154,17 +160,18 @@ TTotals ==
                                nodes |-> IF pl.cluster.nodes < 0 THEN 0 ELSE pl.cluster.nodes]
                      IN Chk(u = c, "Drift_MP_PoolResources", "cluster-differs-from-api") ELSE <<>>)
             \o Chk(pl.ready, "Drift_MP_PoolNotReady", "pool-not-ready")])
+    /\ cnt' = [cnt EXCEPT !.totals = @ + 1]
     /\ UNCHANGED <<st, ntr>>
 
 Passive == {"Read", "Prov", "Tick", "Env", "Begin", "End", "Launch", "Marked", "Skip", "Note", "Panic"}
-TPassive == Ev.e \in Passive /\ UNCHANGED <<st, viol, ntr>>
+TPassive == Ev.e \in Passive /\ UNCHANGED <<st, viol, ntr, cnt>>
 
 TraceNext ==
     \/ /\ l <= Len(Trace) /\ l' = l + 1 /\ UNCHANGED done
        /\ (TCfg \/ TPassBegin \/ TSched \/ TApi \/ TCreated \/ TPassEnd \/ TTotals \/ TPassive)
     \/ /\ l = Len(Trace) + 1 /\ ~done /\ done' = TRUE
-       /\ JsonSerialize(IOEnv.OUT, [viol |-> viol, consumed |-> l - 1, traces |-> ntr])
-       /\ UNCHANGED <<l, st, viol, ntr>>
+       /\ JsonSerialize(IOEnv.OUT, [viol |-> viol, consumed |-> l - 1, traces |-> ntr, counts |-> cnt])
+       /\ UNCHANGED <<l, st, viol, ntr, cnt>>
 
 TraceSpec == TraceInit /\ [][TraceNext]_tvars
 =============================================================================
